@@ -714,6 +714,17 @@ d = subprocess.run(['git','-C',WT,'diff'],capture_output=True,text=True).stdout
 subprocess.check_call(['git','-C',WT,'checkout','--','.'])
 open(os.path.join(root,'selftest','patches','codecexact-proof.diff'),'w').write(d)
 M.append({'id':'codecexact-proof','property':'C09','expect_rules':['CODEC-EXACT'],'file':'backend/groth16/bls12-381/marshal.go','note':'the Groth16 proof decoder reads through a bufio.Reader: bytes after the proof are swallowed'})
+m('statehook-modreduced','C11',['STATE-HOOK'],'std/math/emulated/element.go','''		e.internal = false // we need to constrain in later.
+	}
+''','''		e.internal = false // we need to constrain in later.
+		e.modReduced = false
+		return
+	}
+	if len(e.Limbs) > 0 {
+		// assigned element: keep what we know about it
+		return
+	}
+''',note='GnarkInitHook keeps the modReduced trust flag of elements that already have limbs')
 json.dump({'comment':'selftest mutants: each patch breaks one rule instance and must be detected by the listed rule(s) of its property; produced by tools/make_selftest.py','mutants':M}, open(os.path.join(root,'selftest','mutants.json'),'w'), indent=1)
 subprocess.run(['git','-C','/repo','worktree','remove','--force',WT],capture_output=True)
 print(len(M),'mutants')
